@@ -1,6 +1,7 @@
 //! C17 (external part, control): the same harnesses as c17_todyn_downstream, but THIS crate declares features
-//! named `alloc` and `std` (default on), which is what `to_dyn!`'s `#[cfg(feature = ..)]` arms read at the
-//! expansion site.  All three listed variants convert and alias here.
+//! named `alloc` and `std` (default on) -- the names the pre-8a9f062 `to_dyn!` read at the expansion site.  All
+//! three listed variants convert and alias here, before and after the fix: the calling crate's features must not
+//! matter in either direction.
 //!
 //! Run (after substituting RRTK_PATH in Cargo.toml):  cargo kani --harness <name>   /   cargo test
 //! Expected: all three harnesses SUCCESSFUL, all three native tests ok.
@@ -80,21 +81,21 @@ mod proofs {
         In { pad: kani::any(), v0: kani::any(), x: kani::any(), y: kani::any(), z: kani::any() }
     }
 
-    //@ob fn="to_dyn! (RcRefCell arm)" at=src/reference.rs:355 clause="to_dyn! on an Rc-backed Reference expanded in a downstream crate that itself has a feature named alloc does not panic and aliases the source"
+    //@ob fn="to_dyn! / __to_dyn_alloc! (RcRefCell arm)" at=src/reference.rs:373 clause="to_dyn! on an Rc-backed Reference expanded in a downstream crate that itself has a feature named alloc does not panic and aliases the source"
     #[kani::proof]
     fn c17_ext_to_dyn_rc_from_crate_with_features() {
         rc_case(any_in());
         kani::cover!(true, "reach-end");
     }
 
-    //@ob fn="to_dyn! (PtrRwLock arm)" at=src/reference.rs:359 clause="to_dyn! on a PtrRwLock Reference expanded in a downstream crate that itself has a feature named std does not panic and aliases the source"
+    //@ob fn="to_dyn! / __to_dyn_std! (PtrRwLock arm)" at=src/reference.rs:401 clause="to_dyn! on a PtrRwLock Reference expanded in a downstream crate that itself has a feature named std does not panic and aliases the source"
     #[kani::proof]
     fn c17_ext_to_dyn_ptr_rw_lock_from_crate_with_features() {
         ptr_rw_lock_case(any_in());
         kani::cover!(true, "reach-end");
     }
 
-    //@ob fn="to_dyn! (Ptr arm)" at=src/reference.rs:352 clause="to_dyn! on a Ptr Reference expanded in a downstream crate that declares alloc/std features does not panic and aliases the source (this arm has no cfg)"
+    //@ob fn="to_dyn! (Ptr arm)" at=src/reference.rs:349 clause="to_dyn! on a Ptr Reference expanded in a downstream crate that declares alloc/std features does not panic and aliases the source (this arm has no cfg)"
     #[kani::proof]
     fn c17_ext_to_dyn_ptr_from_crate_with_features() {
         ptr_case(any_in());
